@@ -66,7 +66,7 @@ pub fn fixed_fraction_chunk(st: &mut FSt, rates: &[f32], index: u64) {
         let k32 = k as u32;
         script.set_f32_draw(k32, (k32 ^ k32 >> 8) & 0xFF);
         let before = rec.calls.get();
-        let res = sampler.format(&IdEntry { id: k, group: None }, &mut sink);
+        let res = sampler.format(&IdEntry { id: k, group: None, flip: false }, &mut sink);
         let emitted = rec.calls.get() - before;
         let expect = rate == 1.0 || (k as f64) <= threshold;
         st.draws += 1;
